@@ -88,15 +88,18 @@ class MDOAdditiveChain(MDOParallelChain):
         # Differentiate the disciplines in parallel
         super()._compute_jacobian(input_names, output_names)
 
-        # Sum the Jacobians of the required outputs across disciplines
+        # Sum the Jacobians of the required outputs across disciplines;
+        # a discipline may neither compute an output to sum
+        # nor depend on an input, in which case its contribution is zero.
         for output_name in self._outputs_to_sum:
-            self.jac[output_name] = {}
+            if output_name not in output_names:
+                continue
+
             for input_name in input_names:
                 disciplinary_jacobians = [
                     discipline.jac[output_name][input_name]
                     for discipline in self.disciplines
-                    if input_name in discipline.jac[output_name]
+                    if input_name in discipline.jac.get(output_name, ())
                 ]
-
-                assert disciplinary_jacobians
-                self.jac[output_name][input_name] = sum(disciplinary_jacobians)
+                if disciplinary_jacobians:
+                    self.jac[output_name][input_name] = sum(disciplinary_jacobians)
